@@ -139,6 +139,9 @@ ENV_PROFILES = [{}, {}, {"LC_ALL": "xx_XX.UTF-8"}, {"LC_ALL": None, "LANG": "en_
                 {"HOME": "/nonexistent", "TZ": "Asia/Kolkata"}, {"LC_ALL": "POSIX", "LANG": None}, {"LC_ALL": "tr_TR.ISO8859-9"}]
 
 
+INTERPRETER_FLAGS = [[], [], ["-O"], ["-OO"], ["-bb"], ["-W", "error"], ["-X", "dev"], ["-s", "-S"]]
+
+
 def env_profile(argv, answers):
     import zlib
     return ENV_PROFILES[zlib.crc32(repr((list(argv), list(answers))).encode("utf-8", "replace")) % len(ENV_PROFILES)]
@@ -197,8 +200,11 @@ def run_subprocess(argv, answers):
     env = dict(os.environ)
     env.update({"PYTHONPATH": bootstrap.REPO, "PYTHONIOENCODING": "utf-8", "LC_ALL": "C.UTF-8", "PYTHONDONTWRITEBYTECODE": "1"})
     _apply_env(env, env_profile(argv, answers))
+    # ... and interpreter flags an installation may start the console script with (chosen by the command line as well)
+    import zlib
+    flags = INTERPRETER_FLAGS[zlib.crc32(repr((list(answers), list(argv))).encode("utf-8", "replace")) % len(INTERPRETER_FLAGS)]
     try:
-        p = subprocess.run([sys.executable, "-B", "-m", "cvss.cvss_calculator"] + list(argv), cwd=bootstrap.REPO, env=env,
+        p = subprocess.run([sys.executable, "-B"] + flags + ["-m", "cvss.cvss_calculator"] + list(argv), cwd=bootstrap.REPO, env=env,
                            input="".join(a + "\n" for a in answers).encode("utf-8"), stdout=subprocess.PIPE,
                            stderr=subprocess.PIPE, timeout=120)
     except subprocess.TimeoutExpired:
